@@ -10,11 +10,12 @@ import random
 
 PROPERTY = "C14"
 RULE = (
-    "case kinds: (svgp) strategy in {VariationalStrategy, UnwhitenedVariationalStrategy, CiqVariationalStrategy} x distribution in "
-    "{Cholesky, MeanField, Delta, Natural, TrilNatural} x (inducing batch, parameter batch, data batch) in {(),(2)}^3 x mode in {eval: full "
-    "covariance, train: mean+variance}; (bdvs) BatchDecoupled; (grid) GridInterpolationVariationalStrategy; (lmc/indep) multitask mixing incl. "
-    "task_indices; (identity) q(u)=p(u) => q(f)=prior, KL=0, whitened vs unwhitened same q(u) => same q(f); distinct = cell without seed; "
-    "non-trivial iff q(u) != p(u) (KL > 1e-3) except for the identity cells"
+    'case kinds: (svgp) strategy in {VariationalStrategy, UnwhitenedVariationalStrategy, CiqVariationalStrategy} x distribution in {Cholesky, '
+    'MeanField, Delta, Natural, TrilNatural} x (inducing batch, parameter batch, data batch) in {(),(2)}^3 x mode in {eval: full covariance, '
+    'train: mean+variance}; (bdvs) BatchDecoupled; (orth) OrthogonallyDecoupled over whitened/unwhitened bases; mean-only evaluation before/after '
+    'a parameter update; (grid) GridInterpolationVariationalStrategy; (lmc/indep) multitask mixing incl. task_indices; (identity) q(u)=p(u) => '
+    'q(f)=prior, KL=0, whitened vs unwhitened same q(u) => same q(f); distinct = cell without seed; non-trivial iff q(u) != p(u) (KL > 1e-3) '
+    'except for the identity cells'
 )
 REQUIRED = ["qu_encodes_parameters", "qf_mean", "qf_mean_skipvar", "qf_covar", "qf_train_variance", "kl_closed_form", "qu_equals_prior_gives_prior", "whitened_equals_unwhitened", "lmc_mixing", "indep_mixing", "grid_interp_qf", "bdvs_qf", "orth_decoupled_qf", "orth_decoupled_kl"]
 ASSUMPTIONS = [
